@@ -473,6 +473,26 @@ Section LsProofs.
 
 End LsProofs.
 
+(* the unconditional theorem with the two server flags fixed to true *)
+Theorem ls_refines_spec_all_histories :
+  forall (table content fact diag : Type)
+         (written dropped drained observable : table -> bool)
+         (pass1 : file -> content -> table -> list fact)
+         (diagf : file -> (table -> file -> list fact) -> diag),
+    discipline table written dropped drained observable ->
+    reads_observable_only table fact diag observable diagf ->
+    forall w0 h f d,
+      (forall g, editor content w0 g = None) ->
+      refresh table content fact diag written dropped drained pass1 diagf
+              (run table content fact diag written dropped drained true true pass1 diagf w0 h) f = Some d ->
+      d = diags_spec table content fact diag written drained pass1 diagf
+            (cur content (fst (run table content fact diag written dropped drained true true pass1 diagf w0 h))) f.
+Proof.
+  intros table content fact diag written dropped drained observable pass1 diagf D R.
+  exact (ls_refines_spec_all table content fact diag written dropped drained observable true true pass1 diagf
+           D R eq_refl eq_refl).
+Qed.
+
 (* ---------------------------------------------------------------------- converse witness schema *)
 Section StaleWitness.
   Variable table : Type.
